@@ -42,8 +42,17 @@ the scalar parameters; pointer tests become opaque atoms.  See `checks_of`.
 """
 import sys, os, re, json, hashlib, subprocess
 sys.path.insert(0, os.path.dirname(__file__))
-from clangast import Unhandled, walk
+from clangast import Unhandled
 import clangast
+
+
+def walk(n):
+    """pre-order walk that skips the empty `{}` slots clang emits for absent for-loop parts"""
+    if "kind" not in n:
+        return
+    yield n
+    for c in n.get("inner", []):
+        yield from walk(c)
 
 EXTRA = ("-DNDEBUG",)
 ALLOC = {"blobCreate"}
@@ -187,7 +196,7 @@ class Fn:
         self.derived = {}      # local name -> set of roots (blob keys / out names)
         self.nconds = 0
         self.calls = []        # callee names in order of first appearance (function-local table)
-        self.loop_depth = 0
+        self.ctx = []
         self.scan()
 
     # ---- pre-pass: blob variables, err_t locals, derived pointers
@@ -407,7 +416,7 @@ class Fn:
             if c == 0:
                 out.append([("setnull", self.blobs.index(tk))])
             else:
-                raise Unhandled("blob variable %s assigned from something else than blobCreate/blobResize/0" % tk)
+                out.append([("setunk", self.blobs.index(tk))])
         elif tk is not None and tk == self.code:
             c = int_const(rhs)
             out.append([("code", "ok" if c == 0 else ("bad" if c is not None else "unk"))])
@@ -444,7 +453,7 @@ class Fn:
         for v in uses:
             out.append([("use", v)])
         out.append([("call", self.call_id(cn))])
-        if cn in ZERO:
+        if cn in ZERO or (cn == "memSet" and len(args) == 3 and int_const(args[1]) == 0):
             for d in self.roots_of(args[0], "out"):
                 out.append([("zero", d)])
         else:
@@ -572,35 +581,27 @@ class Fn:
             atoms = []
             self.ev_cond_events(c, atoms)
             ce = [("atom", a) for a in atoms]
-            self.loop_depth += 1
-            B = self.stmt(b)
-            self.loop_depth -= 1
+            B = self.loop_body(b)
             return self.seq(ce + [("loop", self.seq([B] + ce))])
         if k == "DoStmt":
             b, c = n["inner"][0], n["inner"][1]
             atoms = []
             self.ev_cond_events(c, atoms)
             ce = [("atom", a) for a in atoms]
-            self.loop_depth += 1
-            B = self.stmt(b)
-            self.loop_depth -= 1
-            # body at least once; a `break` in the first pass must leave too: loop(B;c) preceded by nothing
-            # is an over-approximation only if zero iterations are harmless -> use loop with ≥0 iterations of
-            # (B; c) AFTER one mandatory pass expressed as loop as well (brk has to be caught by a loop).
-            return ("loop1", self.seq([B] + ce))
+            B = self.loop_body(b)
+            # over-approximation: zero or more passes instead of one or more
+            return ("loop", self.seq([B] + ce))
         if k == "ForStmt":
             init, _, c, inc, b = n["inner"]
             parts = []
-            if init and init.get("kind"):
+            if init.get("kind"):
                 parts.append(self.stmt(init) if init["kind"].endswith("Stmt") else self.expr_stmt(init))
             atoms = []
-            if c and c.get("kind"):
+            if c.get("kind"):
                 self.ev_cond_events(c, atoms)
             ce = [("atom", a) for a in atoms]
-            self.loop_depth += 1
-            B = self.stmt(b)
-            self.loop_depth -= 1
-            I = self.expr_stmt(inc) if inc and inc.get("kind") else ("skip",)
+            B = self.loop_body(b)
+            I = self.expr_stmt(inc) if inc.get("kind") else ("skip",)
             return self.seq(parts + ce + [("loop", self.seq([B, I] + ce))])
         if k == "ReturnStmt":
             if not n.get("inner"):
@@ -617,14 +618,83 @@ class Fn:
                 rv = ("unk",)
             return self.seq([("atom", a) for a in atoms] + [("ret", rv)])
         if k == "BreakStmt":
-            if self.loop_depth == 0:
-                raise Unhandled("break outside a loop (switch)")
+            if not self.ctx or self.ctx[-1] != "loop":
+                raise Unhandled("break that does not leave a loop (switch)")
             return ("brk",)
-        if k in ("ContinueStmt", "GotoStmt", "LabelStmt", "SwitchStmt", "CaseStmt", "DefaultStmt"):
+        if k == "ContinueStmt":
+            if not self.ctx or self.ctx[-1] != "loop":
+                raise Unhandled("continue outside a loop")
+            return ("cont",)
+        if k == "GotoStmt":
+            tgt = n.get("targetLabelDeclId")
+            if self.ctx and self.ctx[-1] == ("goto", tgt):
+                return ("cont",)
+            raise Unhandled("goto that is not a backward jump to a top-level label outside inner loops")
+        if k == "SwitchStmt":
+            return self.switch(n)
+        if k in ("LabelStmt", "CaseStmt", "DefaultStmt"):
             raise Unhandled("statement " + k)
         if k.endswith("Stmt"):
             raise Unhandled("statement " + k)
         return self.expr_stmt(n)
+
+    def loop_body(self, b):
+        self.ctx.append("loop")
+        B = self.stmt(b)
+        self.ctx.pop()
+        return ("blk", B)
+
+    def switch(self, n):
+        """switch (e) { case…: stmts … } without break/continue at its level: an opaque choice of
+        the entry point, then fall-through to the end; no default => may skip everything."""
+        atoms = []
+        self.ev_expr(n["inner"][0], atoms)
+        comp = n["inner"][1]
+        if comp["kind"] != "CompoundStmt":
+            raise Unhandled("switch body")
+        flat, entries, has_default = [], [], False
+        for st in comp.get("inner", []):
+            while st["kind"] in ("CaseStmt", "DefaultStmt"):
+                entries.append(len(flat))
+                if st["kind"] == "DefaultStmt":
+                    has_default = True
+                    st = st["inner"][0]
+                else:
+                    st = st["inner"][-1]
+            flat.append(st)
+        self.ctx.append("switch")
+        trs = [self.stmt(x) for x in flat]
+        self.ctx.pop()
+        alts = [self.seq(trs[i:]) for i in entries]
+        if not has_default:
+            alts.append(("skip",))
+        res = alts[-1]
+        for a in reversed(alts[:-1]):
+            cid = self.nconds
+            self.nconds += 1
+            res = ("ite", cid, a, res)
+        return self.seq([("atom", a) for a in atoms] + [res])
+
+    def top(self):
+        """function body; a top-level label that is the target of backward gotos turns the rest of
+        the body into a loop:  L: rest   ==>   loop(blk(rest))  with  goto L ==> cont."""
+        items = self.body.get("inner", [])
+        return self.top_seq(items)
+
+    def top_seq(self, items):
+        for i, st in enumerate(items):
+            if st["kind"] == "LabelStmt":
+                lid = st.get("declId")
+                pre = [self.stmt(x) for x in items[:i]]
+                rest = [st["inner"][0]] + items[i + 1:]
+                if not rest or items[-1]["kind"] != "ReturnStmt":
+                    raise Unhandled("label whose continuation does not end in return")
+                self.ctx.append(("goto", lid))
+                # nested ifs keep ctx[-1]; inner loops push "loop" so a goto there is refused
+                R = self.top_seq(rest)
+                self.ctx.pop()
+                return self.seq(pre + [("loop", ("blk", R))])
+        return self.seq([self.stmt(x) for x in items])
 
     def ev_cond_events(self, c, atoms):
         if self.has_tracked(c) and strip(c)["kind"] == "BinaryOperator" and strip(c)["opcode"] == "=":
@@ -637,8 +707,10 @@ class Fn:
         return self.seq([("atom", a) for a in atoms])
 
     def run(self):
-        cfg = self.stmt(self.body)
-        return cfg
+        items = [x for x in self.body.get("inner", []) if x["kind"] != "NullStmt"]
+        if not items or items[-1]["kind"] != "ReturnStmt":
+            raise Unhandled("function body does not end in a return statement")
+        return self.top()
 
 
 # --------------------------------------------------------------------------- Lean rendering
@@ -662,8 +734,10 @@ def lean_cfg(c, ind=1):
         return "%s.ite %d (\n%s) (\n%s)" % (pad, c[1], lean_cfg(c[2], ind + 1), lean_cfg(c[3], ind + 1))
     if k == "loop":
         return "%s.loop (\n%s)" % (pad, lean_cfg(c[1], ind + 1))
-    if k == "loop1":
-        return "%sloop1 (\n%s)" % (pad, lean_cfg(c[1], ind + 1))
+    if k == "blk":
+        return "%s.blk (\n%s)" % (pad, lean_cfg(c[1], ind + 1))
+    if k == "cont":
+        return pad + ".cont"
     if k == "ret":
         r = c[1]
         return pad + ".ret " + {"ok": ".ok", "code": ".code", "unk": ".unk"}.get(r[0], "(.err %s)" % (r[1] if len(r) > 1 else 0))
@@ -689,7 +763,7 @@ def size_of(c):
         return 1 + size_of(c[2]) + size_of(c[3])
     if k == "ifcode":
         return 1 + size_of(c[1]) + size_of(c[2])
-    if k in ("loop", "loop1"):
+    if k in ("loop", "blk"):
         return 1 + size_of(c[1])
     return 1
 
@@ -704,7 +778,7 @@ def count_events(c, kinds):
         return count_events(c[2], kinds) + count_events(c[3], kinds)
     if k == "ifcode":
         return count_events(c[1], kinds) + count_events(c[2], kinds)
-    if k in ("loop", "loop1"):
+    if k in ("loop", "blk"):
         return count_events(c[1], kinds)
     return 0
 
@@ -712,12 +786,12 @@ def count_events(c, kinds):
 # --------------------------------------------------------------------------- driver over the tree
 def translate_file(src):
     """-> (list of per-function dicts, list of 'unhandled:<f>:<why>')"""
+    txt = open(os.path.join(repo(), src), errors="replace").read()
+    if not re.search(r"\berr_t\b", txt):
+        return [], []               # no err_t function can be defined here (bash_f*.c, belt_block.c, …)
     try:
         tu = clangast.tu_ast(src, EXTRA)
     except Unhandled as e:
-        txt = open(os.path.join(repo(), src), errors="replace").read()
-        if "err_t" not in txt:
-            return [], []           # platform-specific file without err_t functions (needs -mavx2 …)
         return [], ["unhandled:%s:%s" % (src, str(e)[:200])]
     done, bad = [], []
     for n in tu.get("inner", []):
